@@ -409,9 +409,11 @@ def write_evidence(ctx: Ctx, gate: ProofGate | None, level: str, rule: str, trus
         "known_findings_hit": ctx.known_hits,
     }
     if gate is not None:
+        extra_ob = int(ctx.extra.get("generated_obligations", 0))
+        extra_ok = extra_ob if ctx.extra.get("generated_build_ok", False) else 0
         cov.update({
-            "obligations": gate.obligations(),
-            "discharged": gate.discharged(),
+            "obligations": gate.obligations() + extra_ob,
+            "discharged": gate.discharged() + extra_ok,
             "checker_cmd": gate.checker_cmd(),
             "trusted_base": trusted,
             "theorems": {n: a for n, a in gate.theorems.items()},
